@@ -74,15 +74,18 @@ def stage0(args, argv):
         sys.stderr.write("unknown property %s\n" % prop)
         return 2
     variant = REGISTRY[prop][1]
+    extra_dirs = {}
     try:
         bdir = vbuild.ensure(variant)
-        for extra in getattr(args, "extra_variants", []) or []:
-            vbuild.ensure(extra)
+        for extra in (REGISTRY[prop][2] if len(REGISTRY[prop]) > 2 else []):
+            extra_dirs[extra] = vbuild.ensure(extra)
     except Exception as e:
         sys.stderr.write("HARNESS-ERROR: build failed: %s\n" % e)
         return 2
     env = vbuild.run_env(variant, bdir, hashseed=os.environ.get("VSIM_HASHSEED", "0"))
     env["VSIM_STAGE"] = "1"
+    for k, v in extra_dirs.items():
+        env["VSIM_BUILD_DIR_" + k.upper()] = v
     sys.stdout.flush()
     os.execve(PYTHON, [PYTHON, os.path.join(HERE, "vcheck.py")] + argv, env)
 
